@@ -36,9 +36,9 @@ func cfgList(m map[string]any, k string) []any {
 }
 
 type heldResult struct {
-	id   string
-	res  *promql.Result
-	snap run.CResult
+	id     string
+	res    *promql.Result
+	snap   run.CResult
 	qry    promql.Query
 	closed bool
 }
@@ -80,11 +80,12 @@ func famSession(sc *scn.Scenario, em func(vt.Ev)) {
 	for _, x := range cfgList(sc.Cfg, "queries") {
 		queries = append(queries, x.(string))
 	}
-	type win struct{ start, end, step int64 }
+	type win struct{ start, end, step, qlb int64 }
 	var windows []win
 	for _, x := range cfgList(sc.Cfg, "windows") {
 		m := x.(map[string]any)
-		windows = append(windows, win{int64(m["start"].(float64)), int64(m["end"].(float64)), int64(m["step"].(float64))})
+		qlb, _ := m["qlb"].(float64)
+		windows = append(windows, win{int64(m["start"].(float64)), int64(m["end"].(float64)), int64(m["step"].(float64)), int64(qlb)})
 	}
 	series := run.SeriesOf(sc, sc.Data)
 	store := vstore.New(series)
@@ -134,7 +135,7 @@ func famSession(sc *scn.Scenario, em func(vt.Ev)) {
 			q := queries[op.Q-1]
 			w := windows[op.W-1]
 			qs := *sc
-			qs.Q, qs.Start, qs.End, qs.Step = q, w.start, w.end, w.step
+			qs.Q, qs.Start, qs.End, qs.Step, qs.QLB = q, w.start, w.end, w.step, w.qlb
 			key := fmt.Sprintf("q%d/w%d", op.Q, op.W)
 			qry, err := run.Create(eng, store, &qs)
 			if err != nil {
